@@ -151,6 +151,10 @@ static void judge_fwd_lat(Ctx& c, int zone, bool northp, double x, double y, dou
   if (!p.legal) { if (f.st == 0) c.viol("oracle:C05/forward-lat/accepted-illegal-coordinate/" + p.why, cls, w.str("got", f.s)); return; }
   if (!p.utm) {
     std::string want = rm::encode(p, 0, prec);
+    if (f.st == 0 && f.s != want && prec >= 6) {      // documented round-off at prec 6..11: truncation of fl(x * 10^6)
+      LibModel mu = lib_model(zone, northp, x, y, p);
+      if (mu.product && mu.pm.legal && f.s == rm::encode(mu.pm, 0, prec)) { c.event("forward-lat: prec >= 6 digits are the truncation of fl(x * 10^6) (documented round-off)"); return; }
+    }
     if (f.st || f.s != want) c.viol("oracle:C05/forward-lat/ups-latitude-not-ignored", cls, w.str("got", f.s).str("want", want).str("what", f.what));
     return;
   }
